@@ -10,4 +10,4 @@ mod util;
 pub mod unit;
 
 #[cfg(feature = "verif-hooks")]
-pub mod verif_hooks_sm;
+pub mod verif_hooks_io;
